@@ -4,27 +4,27 @@ package main
 // argument is a constant or fmt.Sprintf with a constant format.
 
 import (
-	"strings"
+	"go/constant"
 	"go/token"
 	"go/types"
-	"go/constant"
 	"sort"
 	"strconv"
+	"strings"
 
 	"golang.org/x/tools/go/ssa"
 )
 
 type writeSite struct {
 	call   ssa.Instruction
-	method string      // WriteString / WriteByte / WriteRune
-	sb     ssa.Value   // the builder
-	format string      // constant text or Sprintf format ("" when neither)
-	isFmt  bool        // argument is fmt.Sprintf(format, args...)
-	args   []ssa.Value // Sprintf operands (unwrapped from interface conversion)
-	arg    ssa.Value   // the raw argument
-	konst  bool        // argument is a constant
-	argT   []string    // operand terms in the namespace of the analysed function
-	cond   dnf         // reaching condition of the write in that namespace
+	method string        // WriteString / WriteByte / WriteRune
+	sb     ssa.Value     // the builder
+	format string        // constant text or Sprintf format ("" when neither)
+	isFmt  bool          // argument is fmt.Sprintf(format, args...)
+	args   []ssa.Value   // Sprintf operands (unwrapped from interface conversion)
+	arg    ssa.Value     // the raw argument
+	konst  bool          // argument is a constant
+	argT   []string      // operand terms in the namespace of the analysed function
+	cond   dnf           // reaching condition of the write in that namespace
 	via    *ssa.Function // non-nil: the write is performed by this helper, called at `call`
 	depth  int           // number of helper calls between the analysed function and the write
 	inner  token.Pos     // position of the write itself (== call.Pos() when depth is 0)
